@@ -582,6 +582,9 @@ def _receive_inbound_orders(node):
 
 		# Loop through products at this node.
 		for prod_index in node.product_indices:
+			# (The external customer only has a pipeline for the products that have a demand source.)
+			if prod_index not in node.state_vars_current.inbound_order_pipeline[s_index]:
+				continue
 			# Set inbound_order from pipeline.
 			node.state_vars_current.inbound_order[s_index][prod_index] = \
 				node.state_vars_current.inbound_order_pipeline[s_index][prod_index][0]
